@@ -7,6 +7,7 @@ import (
 	"fmt"
 	"go/ast"
 	"go/token"
+	"sort"
 	"strings"
 )
 
@@ -44,7 +45,17 @@ func combSkelTags(recv string, nodes ...ast.Node) string {
 				case "Next", "Peek", "Close":
 					b.WriteString("<" + se.Sel.Name + ">")
 				default:
-					if id, ok := se.X.(*ast.Ident); ok && recv != "" && id.Name == recv {
+					// a call through a field of the receiver, directly (iter.keep(..)) or through a chain of
+					// its fields (iter.parent.same(..)): a user callback
+					root := se.X
+					for {
+						if inner, ok := root.(*ast.SelectorExpr); ok {
+							root = inner.X
+							continue
+						}
+						break
+					}
+					if id, ok := root.(*ast.Ident); ok && recv != "" && id.Name == recv {
 						b.WriteString("<cb>")
 					}
 				}
@@ -250,6 +261,224 @@ func combSliceBound(x string, k int, which string) func(c *Ctx, s *Site) (string
 	}
 }
 
+
+// combCtorField extracts the value given to one field in the composite literal a constructor
+// returns (`return &counterIterator{i: 0, n: n}`): `def <Name> (params) : <Type> := <value>`.
+func combCtorField(field string) func(c *Ctx, s *Site) (string, error) {
+	return func(c *Ctx, s *Site) (string, error) {
+		fd, err := c.FindFunc(s.Pkg, s.Func)
+		if err != nil {
+			return "", err
+		}
+		var lit *ast.CompositeLit
+		n := 0
+		ast.Inspect(fd.Body, func(x ast.Node) bool {
+			if r, ok := x.(*ast.ReturnStmt); ok {
+				n++
+				if len(r.Results) == 1 {
+					e := r.Results[0]
+					if u, ok := e.(*ast.UnaryExpr); ok && u.Op == token.AND {
+						e = u.X
+					}
+					if cl, ok := e.(*ast.CompositeLit); ok {
+						lit = cl
+					}
+				}
+			}
+			return true
+		})
+		if n != 1 || lit == nil {
+			return "", fmt.Errorf("%s is not `return &T{...}` (%d return statements)", s.Func, n)
+		}
+		for _, el := range lit.Elts {
+			kv, ok := el.(*ast.KeyValueExpr)
+			if !ok {
+				return "", fmt.Errorf("%s: positional composite literal", s.Func)
+			}
+			if id, ok := kv.Key.(*ast.Ident); ok && id.Name == field {
+				env := &trEnv{c: c, s: s, locals: map[string]string{}, consts: map[string]string{}}
+				t, ty, err := env.tr(kv.Value)
+				if err != nil {
+					return "", err
+				}
+				typ := s.Type
+				if typ == "" {
+					typ = "Int"
+				}
+				if (ty == "Bool") != (typ == "Bool") {
+					return "", fmt.Errorf("%s.%s: expected %s, value %s is %s", s.Func, field, typ, c.Pretty(kv.Value), ty)
+				}
+				return fmt.Sprintf("/-- field `%s: %s` of the value `%s` returns -/\ndef %s%s : %s := %s\n", field, c.Pretty(kv.Value), s.Func, s.Name, paramsText(s.Params), typ, t), nil
+			}
+		}
+		return "", fmt.Errorf("%s: the returned literal does not set field %s", s.Func, field)
+	}
+}
+
+// combExportedFuncs lists the exported top-level functions of a package, sorted: the API the c07
+// harness has to drive (`api:<pkg>.<name>` counters) and the models have to cover.
+func combExportedFuncs(c *Ctx, s *Site) (string, error) {
+	files, err := c.files(s.Pkg)
+	if err != nil {
+		return "", err
+	}
+	var names []string
+	for _, f := range files {
+		for _, d := range f.Decls {
+			if fd, ok := d.(*ast.FuncDecl); ok && fd.Recv == nil && fd.Name.IsExported() {
+				names = append(names, fd.Name.Name)
+			}
+		}
+	}
+	sort.Strings(names)
+	q := make([]string, len(names))
+	for i, n := range names {
+		q[i] = leanString(n)
+	}
+	return fmt.Sprintf("/-- exported functions of package `%s` -/\ndef %s : List String := [%s]\n", s.Pkg, s.Name, strings.Join(q, ", ")), nil
+}
+
+// combRangeX / combText: the printed text of a selected node (range operand, if condition, ...), for
+// the few places where the model needs the *shape* of an expression over pointers / slices of streams
+// that the integer/Boolean translator cannot express.
+func combText(what string) func(c *Ctx, s *Site) (string, error) {
+	return func(c *Ctx, s *Site) (string, error) {
+		fd, err := c.FindFunc(s.Pkg, s.Func)
+		if err != nil {
+			return "", err
+		}
+		n, err := c.SelectPath(fd, s.Sel)
+		if err != nil {
+			return "", err
+		}
+		return fmt.Sprintf("/-- %s of `%s` (%s) -/\ndef %s : String := %s\n", what, s.Func, s.Sel, s.Name, leanString(c.Pretty(n))), nil
+	}
+}
+
+// combDeferFirst: the *first* statement of the function is `defer <call>` - so the deferred call runs on
+// every path out of the function, whatever is added later (a presence fact would still be true after
+// an early return was inserted in front of the defer).
+func combDeferFirst(call string) func(c *Ctx, s *Site) (string, error) {
+	return func(c *Ctx, s *Site) (string, error) {
+		fd, err := c.FindFunc(s.Pkg, s.Func)
+		if err != nil {
+			return "", err
+		}
+		ok := false
+		if len(fd.Body.List) > 0 {
+			if d, isDefer := fd.Body.List[0].(*ast.DeferStmt); isDefer && c.Text(d.Call) == stripSpace(call) {
+				ok = true
+			}
+		}
+		return fmt.Sprintf("/-- the first statement of `%s` is `defer %s` -/\ndef %s : Bool := %v\n", s.Func, call, s.Name, ok), nil
+	}
+}
+
+// skeleton of a method that is outside the "no goroutine, no channel" count (Chan)
+func combSkeletonSite(mod, pkg, fn, name string) Site {
+	return Site{Module: mod, Pkg: pkg, Func: fn, Name: name, Kind: Custom, Custom: combSkeleton}
+}
+
+// combExprSite translates a selected Boolean / value expression that mentions user callbacks or values of
+// the (generic) element type into a polymorphic Lean definition: `sig` is the Lean binder list and result
+// type, `vars` maps Go expression text to Lean terms, `callees` maps callee text to the Lean parameter
+// that stands for it. Accepted: mapped expressions, `!`, `&&`, `||`, `==`, `!=`, `<`, `>`, `<=`, `>=`,
+// integer literals, calls of mapped callees.
+func combExprSite(mod, pkg, fn, name, sel, sig string, vars, callees map[string]string) Site {
+	return Site{Module: mod, Pkg: pkg, Func: fn, Name: name, Kind: Custom, Sel: sel,
+		Custom: func(c *Ctx, s *Site) (string, error) {
+			fd, err := c.FindFunc(pkg, fn)
+			if err != nil {
+				return "", err
+			}
+			n, err := c.SelectPath(fd, sel)
+			if err != nil {
+				return "", err
+			}
+			x, ok := n.(ast.Expr)
+			if !ok {
+				return "", fmt.Errorf("selector %q is not an expression", sel)
+			}
+			var tr func(e ast.Expr) (string, error)
+			tr = func(e ast.Expr) (string, error) {
+				txt := c.Text(e)
+				if v, ok := vars[txt]; ok {
+					return v, nil
+				}
+				switch n := e.(type) {
+				case *ast.ParenExpr:
+					return tr(n.X)
+				case *ast.BasicLit:
+					if n.Kind == token.INT {
+						return "(" + n.Value + " : Int)", nil
+					}
+				case *ast.Ident:
+					if n.Name == "true" || n.Name == "false" {
+						return n.Name, nil
+					}
+					return "", fmt.Errorf("unmapped identifier %q", n.Name)
+				case *ast.UnaryExpr:
+					a, err := tr(n.X)
+					if err != nil {
+						return "", err
+					}
+					if n.Op == token.NOT {
+						return "(!" + a + ")", nil
+					}
+				case *ast.BinaryExpr:
+					a, err := tr(n.X)
+					if err != nil {
+						return "", err
+					}
+					b, err := tr(n.Y)
+					if err != nil {
+						return "", err
+					}
+					switch n.Op {
+					case token.LAND:
+						return "(" + a + " && " + b + ")", nil
+					case token.LOR:
+						return "(" + a + " || " + b + ")", nil
+					case token.EQL:
+						return "(" + a + " == " + b + ")", nil
+					case token.NEQ:
+						return "(" + a + " != " + b + ")", nil
+					case token.LSS:
+						return "(decide (" + a + " < " + b + "))", nil
+					case token.GTR:
+						return "(decide (" + a + " > " + b + "))", nil
+					case token.LEQ:
+						return "(decide (" + a + " ≤ " + b + "))", nil
+					case token.GEQ:
+						return "(decide (" + a + " ≥ " + b + "))", nil
+					case token.ADD, token.SUB:
+						return "(" + a + " " + n.Op.String() + " " + b + ")", nil
+					}
+				case *ast.CallExpr:
+					lean, ok := callees[c.Text(n.Fun)]
+					if !ok {
+						return "", fmt.Errorf("unexpected callee %s", c.Text(n.Fun))
+					}
+					out := "(" + lean
+					for _, a := range n.Args {
+						t, err := tr(a)
+						if err != nil {
+							return "", err
+						}
+						out += " " + t
+					}
+					return out + ")", nil
+				}
+				return "", fmt.Errorf("unsupported expression %s", txt)
+			}
+			t, err := tr(x)
+			if err != nil {
+				return "", err
+			}
+			return fmt.Sprintf("/-- `%s` in `%s` (%s) -/\ndef %s %s := %s\n", c.Pretty(x), fn, sel, name, sig, t), nil
+		}}
+}
+
 func init() {
 	const mod = "Comb"
 	I := func(names ...string) []Param {
@@ -276,6 +505,33 @@ func init() {
 		return Site{Module: mod, Pkg: pkg, Func: fn, Name: name, Kind: Custom, Custom: combSkeleton}
 	}
 	lastVars := map[string]string{"i": "i", "n": "n", "idx": "idx"}
+	deferFirst := func(pkg, fn, name string) Site {
+		return Site{Module: mod, Pkg: pkg, Func: fn, Name: name, Kind: Custom, Custom: combDeferFirst("s.Close()")}
+	}
+	ctor := func(pkg, fn, name, field, typ string, ps []Param, vars map[string]string) Site {
+		return Site{Module: mod, Pkg: pkg, Func: fn, Name: name, Kind: Custom, Type: typ, Params: ps, Vars: vars, Custom: combCtorField(field)}
+	}
+	text := func(pkg, fn, name, sel, what string) Site {
+		return Site{Module: mod, Pkg: pkg, Func: fn, Name: name, Kind: Custom, Sel: sel, Custom: combText(what)}
+	}
+	// Go `error` values as the methods test and return them: nil = 0, End = 1, the error held in `err`
+	// (or returned by ctx.Err() / stored in s.err) = the parameter e, ErrEmpty = 3, ErrMoreThanOne = 4
+	errVars := map[string]string{"err": "e", "nil": "(0 : Int)", "End": "(1 : Int)", "stream.End": "(1 : Int)",
+		"ErrEmpty": "(3 : Int)", "ErrMoreThanOne": "(4 : Int)", "ctx.Err()": "e", "s.err": "e"}
+	eg := func(fn, name, sel string) Site { // error guard: Bool function of the error code
+		return ex(st, fn, name, sel, "Bool", I("e"), errVars)
+	}
+	er := func(fn, name string, k int) Site { // error operand of the k-th return statement
+		return ex(st, fn, name, fmt.Sprintf("return[%d].result[1]", k), "Int", I("e"), errVars)
+	}
+	okVars := map[string]string{"ok": "ok"}
+	B := func(names ...string) []Param {
+		var ps []Param
+		for _, n := range names {
+			ps = append(ps, Param{n, "Bool"})
+		}
+		return ps
+	}
 
 	register(
 		// ---------------------------------------------------------------- iterator sources
@@ -317,11 +573,14 @@ func init() {
 		ex(st, "peekable.Peek", "stPeekPulls", "if[0].cond", "Bool", []Param{{"has", "Bool"}}, map[string]string{"s.has": "has"}),
 		pres(st, "peekable.Peek", "stPeekSetsHas", "if[0].body", "s.has = true"),
 		// reducers: deferred Close (hypotheses of the *_closes theorems)
-		pres(st, "Collect", "stCollectDefersClose", "", "defer s.Close()"),
-		pres(st, "Last", "stLastDefersClose", "", "defer s.Close()"),
-		pres(st, "One", "stOneDefersClose", "", "defer s.Close()"),
-		pres(st, "Reduce", "stReduceDefersClose", "", "defer s.Close()"),
-		pres("xmath/xrand", "rSampleStream", "sampleStreamDefersClose", "", "defer s.Close()"),
+		deferFirst(st, "Collect", "stCollectDefersClose"),
+		deferFirst(st, "Last", "stLastDefersClose"),
+		deferFirst(st, "One", "stOneDefersClose"),
+		deferFirst(st, "Reduce", "stReduceDefersClose"),
+		deferFirst("xmath/xrand", "rSampleStream", "sampleStreamDefersClose"),
+		wrapperSite(mod, "xmath/xrand", "SampleStream", "sampleStreamW",
+			"{C : Type _} {R : Type _} {S : Type _} {K : Type _} {O : Type _} (rSampleStream : C → R → S → K → O) (defaultRand : R) (ctx : C) (s : S) (k : K) : O",
+			map[string]string{"ctx": "ctx", "s": "s", "k": "k", "defaultRand{}": "defaultRand"}, map[string]string{"rSampleStream": "rSampleStream"}, ""),
 		// Last
 		ex(st, "Last", "stLastStoreGuard", "for[0].body/if[2].cond", "Bool", I("n"), lastVars),
 		ex(st, "Last", "stLastSlot", "for[0].body/index[buf][0].idx", "Int", I("i", "n"), lastVars),
@@ -419,6 +678,173 @@ func init() {
 		skel(st, "One", "skStOne"),
 		skel(st, "Reduce", "skStReduce"),
 		Site{Module: mod, Pkg: st, Name: "combConcurrencyOps", Kind: Custom, Custom: combConcurrencyOps},
+
+		// ---------------------------------------------------------------- sources and constructors (C07-A1)
+		Site{Module: mod, Pkg: it, Name: "itApi", Kind: Custom, Custom: combExportedFuncs},
+		Site{Module: mod, Pkg: st, Name: "stApi", Kind: Custom, Custom: combExportedFuncs},
+		Site{Module: mod, Pkg: xs, Name: "xsApi", Kind: Custom, Custom: combExportedFuncs},
+		ctor(it, "Counter", "itCounterInitI", "i", "Int", I("n"), map[string]string{"n": "n"}),
+		ctor(it, "Counter", "itCounterInitN", "n", "Int", I("n"), map[string]string{"n": "n"}),
+		ex(it, "counterIterator.Next", "itCounterItem", "assign[item][0].rhs", "Int", I("i", "n"), map[string]string{"iter.i": "i", "iter.n": "n"}),
+		ctor(it, "Repeat", "itRepeatInitX", "x", "Int", I("n"), map[string]string{"n": "n"}),
+		ctor(it, "WithPeek", "itPeekInitHas", "has", "Bool", nil, nil),
+		ctor(it, "CompactFunc", "itCompactInitFirst", "first", "Bool", nil, nil),
+		ctor(it, "First", "itFirstInitX", "x", "Int", I("n"), map[string]string{"n": "n"}),
+		ctor(it, "While", "itWhileInitDone", "done", "Bool", nil, nil),
+		ctor(it, "Chunk", "itChunkInitSize", "chunkSize", "Int", I("size"), map[string]string{"chunkSize": "size"}),
+		ctor(st, "WithPeek", "stPeekInitHas", "has", "Bool", nil, nil),
+		ctor(st, "CompactFunc", "stCompactInitFirst", "first", "Bool", nil, nil),
+		ctor(st, "First", "stFirstInitX", "x", "Int", I("n"), map[string]string{"n": "n"}),
+		ctor(st, "Chunk", "stChunkInitSize", "chunkSize", "Int", I("size"), map[string]string{"chunkSize": "size"}),
+		ex(it, "emptyIterator.Next", "itEmptyOk", "return[0].result[1]", "Bool", nil, nil),
+		Site{Module: mod, Pkg: it, Func: "chanIterator.Next", Name: "itChanBody", Kind: StmtList},
+		combSkeletonSite(mod, it, "chanIterator.Next", "skItChanNext"),
+		combSkeletonSite(mod, it, "emptyIterator.Next", "skItEmptyNext"),
+		combSkeletonSite(mod, st, "chanStream.Next", "skStChanNext"),
+		combSkeletonSite(mod, st, "chanStream.Close", "skStChanClose"),
+		combSkeletonSite(mod, st, "emptyStream.Next", "skStEmptyNext"),
+		combSkeletonSite(mod, st, "emptyStream.Close", "skStEmptyClose"),
+		combSkeletonSite(mod, st, "errorStream.Next", "skStErrorNext"),
+		combSkeletonSite(mod, st, "errorStream.Close", "skStErrorClose"),
+		combSkeletonSite(mod, "xmath/xrand", "rSampleStream", "skSampleStream"),
+		// the `Compact` / `Collect` wrappers: whole body, callee as a parameter
+		wrapperSite(mod, it, "Compact", "itCompactW", "{I : Type _} {T : Type _} {R : Type _} [BEq T] (compactFunc : I → (T → T → Bool) → R) (iter : I) : R",
+			map[string]string{"iter": "iter"}, map[string]string{"CompactFunc": "compactFunc"}, ""),
+		wrapperSite(mod, st, "Compact", "stCompactW", "{I : Type _} {T : Type _} {R : Type _} [BEq T] (compactFunc : I → (T → T → Bool) → R) (s : I) : R",
+			map[string]string{"s": "s"}, map[string]string{"CompactFunc": "compactFunc"}, ""),
+		wrapperSite(mod, it, "Collect", "itCollectW", "{I : Type _} {T : Type _} {L : Type _} {R : Type _} (reduce : I → L → (L → T → L) → R) (nil_ : L) (append : L → T → L) (iter : I) : R",
+			map[string]string{"iter": "iter", "nil": "nil_"}, map[string]string{"Reduce": "reduce", "append": "append"}, ""),
+		// stream sources: returned error operands
+		er("emptyStream.Next", "stEmptyRet", 0),
+		er("errorStream.Next", "stErrorRet", 0),
+		eg("iteratorStream.Next", "stFromIterCtxGuard", "if[0].cond"),
+		er("iteratorStream.Next", "stFromIterCtxRet", 0),
+		ex(st, "iteratorStream.Next", "stFromIterEndGuard", "if[1].cond", "Bool", B("ok"), okVars),
+		er("iteratorStream.Next", "stFromIterEndRet", 1),
+		er("iteratorStream.Next", "stFromIterItemRet", 2),
+		ex(st, "chanStream.Next", "stChanEndGuard", "comm[s.c][0].body/if[0].cond", "Bool", B("ok"), okVars),
+		ex(st, "chanStream.Next", "stChanEndRet", "comm[s.c][0].body/return[0].result[1]", "Int", I("e"), errVars),
+		ex(st, "chanStream.Next", "stChanItemRet", "comm[s.c][0].body/return[1].result[1]", "Int", I("e"), errVars),
+		ex(st, "chanStream.Next", "stChanCtxRet", "comm[ctx.Done()][0].body/return[0].result[1]", "Int", I("e"), errVars),
+		Site{Module: mod, Pkg: st, Func: "chanStream.Next", Name: "stChanArms", Kind: Custom, Sel: "select[0]", Custom: func(c *Ctx, s *Site) (string, error) {
+			fd, err := c.FindFunc(s.Pkg, s.Func)
+			if err != nil {
+				return "", err
+			}
+			n, err := c.SelectPath(fd, s.Sel)
+			if err != nil {
+				return "", err
+			}
+			sel, ok := n.(*ast.SelectStmt)
+			if !ok {
+				return "", fmt.Errorf("not a select")
+			}
+			var arms []string
+			for _, cl := range sel.Body.List {
+				arms = append(arms, leanString(c.commChan(cl.(*ast.CommClause))))
+			}
+			sort.Strings(arms)
+			return fmt.Sprintf("/-- channels of the arms of the `select` of `%s`, sorted (\"\" = default) -/\ndef %s : List String := [%s]\n", s.Func, s.Name, strings.Join(arms, ", ")), nil
+		}},
+
+		// ---------------------------------------------------------------- error guards and returned error operands (C08-F1)
+		eg("peekable.Peek", "stPeekEndGuard", "if[1].cond"), er("peekable.Peek", "stPeekEndRet", 0),
+		eg("peekable.Peek", "stPeekErrGuard", "if[2].cond"), er("peekable.Peek", "stPeekErrRet", 1),
+		er("peekable.Peek", "stPeekItemRet", 2), er("peekable.Next", "stPeekNextItemRet", 0),
+		eg("Collect", "stCollectEndGuard", "if[0].cond"), er("Collect", "stCollectEndRet", 0),
+		eg("Collect", "stCollectErrGuard", "if[1].cond"), er("Collect", "stCollectErrRet", 1),
+		eg("Last", "stLastEndGuard", "if[0].cond"), eg("Last", "stLastErrGuard", "if[1].cond"), er("Last", "stLastErrRet", 0),
+		er("Last", "stLastShortRet", 1), er("Last", "stLastRet", 2),
+		eg("One", "stOneEmptyGuard", "if[0].cond"), er("One", "stOneEmptyRet", 0),
+		eg("One", "stOneErr1Guard", "if[1].cond"), er("One", "stOneErr1Ret", 1),
+		eg("One", "stOneOkGuard", "if[2].cond"), er("One", "stOneOkRet", 2),
+		eg("One", "stOneErr2Guard", "if[3].cond"), er("One", "stOneErr2Ret", 3),
+		er("One", "stOneMoreRet", 4),
+		eg("Reduce", "stReduceEndGuard", "if[0].cond"), er("Reduce", "stReduceEndRet", 0),
+		eg("Reduce", "stReduceErrGuard", "if[1].cond"), er("Reduce", "stReduceErrRet", 1),
+		eg("Reduce", "stReduceCbGuard", "if[2].cond"), er("Reduce", "stReduceCbRet", 2),
+		eg("chunkStream.Next", "stChunkEndGuard", "if[0].cond"), eg("chunkStream.Next", "stChunkErrGuard", "if[1].cond"),
+		er("chunkStream.Next", "stChunkErrRet", 0), er("chunkStream.Next", "stChunkFullRet", 1),
+		er("chunkStream.Next", "stChunkFlushRet", 2), er("chunkStream.Next", "stChunkDoneRet", 3),
+		eg("compactStream.Next", "stCompactErrGuard", "if[0].cond"), er("compactStream.Next", "stCompactErrRet", 0),
+		er("compactStream.Next", "stCompactFirstRet", 1), er("compactStream.Next", "stCompactItemRet", 2),
+		eg("filterStream.Next", "stFilterErrGuard", "if[0].cond"), er("filterStream.Next", "stFilterErrRet", 0),
+		eg("filterStream.Next", "stFilterCbGuard", "if[1].cond"), er("filterStream.Next", "stFilterCbRet", 1),
+		er("filterStream.Next", "stFilterItemRet", 2),
+		er("firstStream.Next", "stFirstDoneRet", 0),
+		eg("firstStream.Next", "stFirstErrGuard", "if[1].cond"), er("firstStream.Next", "stFirstErrRet", 1),
+		er("firstStream.Next", "stFirstItemRet", 2),
+		eg("flattenStream.Next", "stFlattenOuterErrGuard", "if[1].cond"), er("flattenStream.Next", "stFlattenOuterErrRet", 0),
+		eg("flattenStream.Next", "stFlattenEndGuard", "if[2].cond"),
+		eg("flattenStream.Next", "stFlattenErrGuard", "if[3].cond"), er("flattenStream.Next", "stFlattenErrRet", 1),
+		er("flattenStream.Next", "stFlattenItemRet", 2),
+		er("flattenSlicesStream.Next", "stFlattenSlicesItemRet", 0),
+		eg("flattenSlicesStream.Next", "stFlattenSlicesErrGuard", "if[1].cond"), er("flattenSlicesStream.Next", "stFlattenSlicesErrRet", 1),
+		eg("joinStream.Next", "stJoinEndGuard", "if[0].cond"),
+		eg("joinStream.Next", "stJoinErrGuard", "if[1].cond"), er("joinStream.Next", "stJoinErrRet", 0),
+		er("joinStream.Next", "stJoinItemRet", 1), er("joinStream.Next", "stJoinDoneRet", 2),
+		eg("mapStream.Next", "stMapErrGuard", "if[0].cond"), er("mapStream.Next", "stMapErrRet", 0),
+		eg("mapStream.Next", "stMapCbGuard", "if[1].cond"), er("mapStream.Next", "stMapCbRet", 1),
+		er("mapStream.Next", "stMapItemRet", 2),
+		eg("runsStream.Next", "stRunsDrainEndGuard", "if[1].cond"),
+		eg("runsStream.Next", "stRunsDrainErrGuard", "if[2].cond"), er("runsStream.Next", "stRunsDrainErrRet", 0),
+		eg("runsStream.Next", "stRunsPeekErrGuard", "if[3].cond"), er("runsStream.Next", "stRunsPeekErrRet", 1),
+		er("runsStream.Next", "stRunsItemRet", 2),
+		er("runsInnerStream.Next", "stRunsInnerDetachedRet", 0),
+		eg("runsInnerStream.Next", "stRunsInnerEndGuard", "if[1].cond"), er("runsInnerStream.Next", "stRunsInnerEndRet", 1),
+		eg("runsInnerStream.Next", "stRunsInnerErrGuard", "if[2].cond"), er("runsInnerStream.Next", "stRunsInnerErrRet", 2),
+		er("runsInnerStream.Next", "stRunsInnerOtherRet", 3),
+		er("whileStream.Next", "stWhileDoneRet", 0),
+		eg("whileStream.Next", "stWhileErrGuard", "if[2].cond"), er("whileStream.Next", "stWhileErrRet", 1),
+		eg("whileStream.Next", "stWhileCbGuard", "if[3].cond"), er("whileStream.Next", "stWhileCbRet", 2),
+		er("whileStream.Next", "stWhileStopRet", 3), er("whileStream.Next", "stWhileItemRet", 4),
+
+		ex("xmath/xrand", "rSampleStream", "sampleEndGuard", "if[0].cond", "Bool", I("e"), errVars),
+		ex("xmath/xrand", "rSampleStream", "sampleErrGuard", "if[1].cond", "Bool", I("e"), errVars),
+		ex("xmath/xrand", "rSampleStream", "sampleErrRet", "return[0].result[1]", "Int", I("e"), errVars),
+		ex("xmath/xrand", "rSampleStream", "sampleRet", "return[1].result[1]", "Int", I("e"), errVars),
+
+		// ---------------------------------------------------------------- value-level expressions (C07-B2): callback
+		// argument order and polarity, the tests of One / Equal, loop conditions, slice bounds
+		combExprSite(mod, it, "compactIterator.Next", "itCompactKeeps", "if[2].cond", "{α : Type _} (eq : α → α → Bool) (prev item : α) : Bool",
+			map[string]string{"iter.prev": "prev", "item": "item"}, map[string]string{"iter.eq": "eq"}),
+		combExprSite(mod, st, "compactStream.Next", "stCompactKeeps", "if[2].cond", "{α : Type _} (eq : α → α → Bool) (prev item : α) : Bool",
+			map[string]string{"s.prev": "prev", "item": "item"}, map[string]string{"s.eq": "eq"}),
+		combExprSite(mod, it, "filterIterator.Next", "itFilterKeeps", "if[1].cond", "{α : Type _} (keep : α → Bool) (item : α) : Bool",
+			map[string]string{"item": "item"}, map[string]string{"iter.keep": "keep"}),
+		combExprSite(mod, st, "filterStream.Next", "stFilterKeeps", "if[2].cond", "(ok : Bool) : Bool", map[string]string{"ok": "ok"}, nil),
+		combExprSite(mod, it, "whileIterator.Next", "itWhileStops", "if[2].cond", "{α : Type _} (f : α → Bool) (item : α) : Bool",
+			map[string]string{"item": "item"}, map[string]string{"iter.f": "f"}),
+		combExprSite(mod, st, "whileStream.Next", "stWhileStops", "if[4].cond", "(ok : Bool) : Bool", map[string]string{"ok": "ok"}, nil),
+		combExprSite(mod, it, "runsInnerIterator.Next", "itRunsInnerStops", "if[1].cond", "{α : Type _} (same : α → α → Bool) (prev item : α) (ok : Bool) : Bool",
+			map[string]string{"iter.prev": "prev", "item": "item", "ok": "ok"}, map[string]string{"iter.parent.same": "same"}),
+		combExprSite(mod, st, "runsInnerStream.Next", "stRunsInnerStops", "if[3].cond", "{α : Type _} (same : α → α → Bool) (prev item : α) : Bool",
+			map[string]string{"s.prev": "prev", "item": "item"}, map[string]string{"s.parent.same": "same"}),
+		combExprSite(mod, it, "One", "itOneEmpty", "if[0].cond", "(ok : Bool) : Bool", map[string]string{"ok": "ok"}, nil),
+		combExprSite(mod, it, "One", "itOneMore", "if[1].cond", "(ok : Bool) : Bool", map[string]string{"ok": "ok"}, nil),
+		combExprSite(mod, it, "Equal", "itEqualNone", "if[0].cond", "(len : Int) : Bool", map[string]string{"len(iters)": "len"}, nil),
+		combExprSite(mod, it, "Equal", "itEqualStart", "assign[i][0].rhs", ": Int", nil, nil),
+		combExprSite(mod, it, "Equal", "itEqualLoops", "for[1].cond", "(i len : Int) : Bool", map[string]string{"i": "i", "len(iters)": "len"}, nil),
+		combExprSite(mod, it, "Equal", "itEqualLenDiff", "if[1].cond", "(ok okI : Bool) : Bool", map[string]string{"ok": "ok", "iterIOk": "okI"}, nil),
+		combExprSite(mod, it, "Equal", "itEqualItemDiff", "if[2].cond", "{α : Type _} [DecidableEq α] (ok : Bool) (item itemI : α) : Bool",
+			map[string]string{"ok": "ok", "item": "item", "iterIItem": "itemI"}, nil),
+		combExprSite(mod, it, "Equal", "itEqualDone", "if[3].cond", "(ok : Bool) : Bool", map[string]string{"ok": "ok"}, nil),
+		combExprSite(mod, it, "joinIterator.Next", "itJoinLoops", "for[0].cond", "(len : Int) : Bool", map[string]string{"len(iter.iters)": "len"}, nil),
+		combExprSite(mod, st, "joinStream.Next", "stJoinLoops", "for[0].cond", "(len : Int) : Bool", map[string]string{"len(s.remaining)": "len"}, nil),
+		combExprSite(mod, st, "flattenSlicesStream.Next", "stFlattenSlicesHas", "if[0].cond", "(len : Int) : Bool", map[string]string{"len(s.buffer)": "len"}, nil),
+		combExprSite(mod, st, "flattenSlicesStream.Next", "stFlattenSlicesHead", "index[s.buffer][0].idx", ": Int", nil, nil),
+		Site{Module: mod, Pkg: st, Func: "flattenSlicesStream.Next", Name: "stFlattenSlicesRest", Kind: Custom, Custom: combSliceBound("s.buffer", 0, "lo")},
+		Site{Module: mod, Pkg: it, Func: "Last", Name: "itLastTake", Kind: Custom, Params: I("i", "n", "idx"), Vars: lastVars, Custom: combSliceBound("buf", 0, "hi")},
+		Site{Module: mod, Pkg: it, Func: "Last", Name: "itLastFrom", Kind: Custom, Params: I("i", "n", "idx"), Vars: lastVars, Custom: combSliceBound("buf", 1, "lo")},
+		Site{Module: mod, Pkg: it, Func: "Last", Name: "itLastUpto", Kind: Custom, Params: I("i", "n", "idx"), Vars: lastVars, Custom: combSliceBound("buf", 2, "hi")},
+		Site{Module: mod, Pkg: st, Func: "Last", Name: "stLastTake", Kind: Custom, Params: I("i", "n", "idx"), Vars: lastVars, Custom: combSliceBound("buf", 0, "hi")},
+		Site{Module: mod, Pkg: st, Func: "Last", Name: "stLastFrom", Kind: Custom, Params: I("i", "n", "idx"), Vars: lastVars, Custom: combSliceBound("buf", 1, "lo")},
+		Site{Module: mod, Pkg: st, Func: "Last", Name: "stLastUpto", Kind: Custom, Params: I("i", "n", "idx"), Vars: lastVars, Custom: combSliceBound("buf", 2, "hi")},
+
+		// ---------------------------------------------------------------- Close of the multi-stream combinators (C09-F2)
+		text(st, "joinStream.Close", "stJoinCloseRange", "range[0].x", "range operand"),
+		text(st, "joinStream.Close", "stJoinCloseStmt", "range[0].body", "loop body"),
+		text(st, "flattenStream.Close", "stFlattenCloseCond", "if[0].cond", "condition"),
 
 		// ---------------------------------------------------------------- xslices
 		ex(xs, "Chunk", "xsChunkPanics", "if[0].cond", "Bool", I("size"), map[string]string{"chunkSize": "size"}),
